@@ -177,13 +177,13 @@ def pchecks(ids, props_override=None, workers=3, clean=False):
 
     def one(sid):
         od = os.path.join(OUT, sid)
-        meta = json.load(open(os.path.join(od, "meta.json"))) if sid != "CLEAN" else {"property": None}
-        props = props_override or [meta["property"]]
+        meta = json.load(open(os.path.join(od, "meta.json"))) if not sid.startswith("CLEAN") else {"property": sid[6:]}
+        props = [meta["property"]] if sid.startswith("CLEAN-") else (props_override or [meta["property"]])
         with lock:
             wt = worktree(sid)
         res = {}
         try:
-            if sid != "CLEAN":
+            if not sid.startswith("CLEAN"):
                 rc, out = sh("git apply %s" % os.path.join(od, "patch.diff"), cwd=wt)
                 if rc != 0:
                     print(sid, "does not apply", out[-200:], flush=True)
@@ -203,12 +203,12 @@ def pchecks(ids, props_override=None, workers=3, clean=False):
         finally:
             with lock:
                 rm_worktree(wt)
-        if sid != "CLEAN":
+        if not sid.startswith("CLEAN"):
             meta.setdefault("checks", {}).update(res)
             meta["detected_by"] = sorted(p for p, r in meta["checks"].items() if r["exit"] == 1)
             json.dump(meta, open(os.path.join(od, "meta.json"), "w"), indent=1)
 
-    todo = ["CLEAN"] if clean else list(staged(ids))
+    todo = ["CLEAN-" + p for p in (props_override or ["C%02d" % i for i in range(1, 21)])] if clean else list(staged(ids))
     with ThreadPoolExecutor(max_workers=workers) as ex:
         list(ex.map(one, todo))
 
